@@ -129,7 +129,7 @@ def getExt2Body (d : Array UInt8) (id : Nat) (offset : Nat) : Cur (Nat ⊕ Optio
 def getExtension (e : Ext) (id : Nat) : Cur (Option (Nat × Nat)) :=
   if ¬ e.present then pure none else
   if e.profile = 0xBEDE then loopM (getExt1Body e.data id) (e.data.size + 1) 0
-  else if e.profile = 0x1000 then loopM (getExt2Body e.data id) (e.data.size + 1) 0
+  else if e.profile / 16 = 0x100 then loopM (getExt2Body e.data id) (e.data.size + 1) 0   -- `profile & 0xFFF0 == 0x1000`
   else pure none
 
 /-! ### set_extension (src/rtp.rs:182-248, after the `fix:` commit that bounds-checks the element) -/
@@ -189,12 +189,14 @@ def writeTo (ncsrc : Nat) (hasExt : Bool) (extLen : Nat) : Cur Unit := do
   else pure ()
 
 /-- `RtpPacket::marshal`: validate, allocate `encoded_len`, `marshal_impl`; returns the length -/
-def marshal (ncsrc : Nat) (hasExt : Bool) (extLen payloadLen paddingLen : Nat) : Cur Nat := do
+def marshal (pt ncsrc : Nat) (hasExt : Bool) (extLen payloadLen paddingLen : Nat) : Cur Nat := do
   let hlen := encodedHdrLen ncsrc hasExt extLen
   let total := hlen + payloadLen + paddingLen
   alloc total                                        -- `vec![0; packet_len]`
+  if pt > 127 then bail "InvalidHeader(\"payload_type_does_not_fit_7_bits\")" else
   if ncsrc > 15 then bail "InvalidHeader(\"too_many_CSRC_entries\")" else
   if hasExt ∧ extLen % 4 ≠ 0 then bail "InvalidHeader(\"header_extension_payload_must_be_32-bit_aligned\")" else
+  if hasExt ∧ extLen / 4 > 65535 then bail "InvalidHeader(\"header_extension_too_long\")" else
   let payloadEnd := hlen + payloadLen
   let hb ← sliceLen total 0 hlen                     -- `&mut buffer[..header_len]`
   let _ ← onBuf ⟨Array.replicate hb 0, 0⟩ (writeTo ncsrc hasExt extLen)
